@@ -142,6 +142,24 @@ def run(tier, seed, replay=None):
     cov.update({'evaluations': len(scripts), 'distinct_nontrivial': len(finals), 'ops': sum(len(v) for v in sd.values()),
                 'rule': 'random scripts in the C-expressible alphabet over 4 run-time described components with every subset of optional functions; distinct = distinct final component tables seen through the C interface',
                 'tierA_failures': len(fa), 'tierB_divergences': len(div), 'samples': [scripts[0][1][:30]]})
+    # a component described with a create function corresponds to a C++ type with a constructor: wherever an instance comes
+    # into being without a value (assign, creation from an archetype, a dependency, immediately or through a command buffer) it
+    # is the create function's result (1000 + palette number), never the bytes of the default value (2000 + palette number)
+    for name_, blocks_ in capi:
+        flags_ = dict((int(t[1]), int(t[2])) for t in (l.split() for l in sd.get(name_, [])) if t and t[0] == 'reg' and len(t) > 2)
+        for i_, b_ in enumerate(blocks_):
+            hv_ = jobcheck.parse_Hvals(b_)
+            bad_ = None
+            for pal_, fl_ in flags_.items():
+                if fl_ & 1 and fl_ & 32:
+                    for cid_ in jobcheck.pal_cids(sd[name_], blocks_, pal_):
+                        for h_, comps_ in hv_.items():
+                            if comps_.get(cid_) == str(2000 + pal_):
+                                bad_ = (h_, cid_, pal_)
+            if bad_:
+                fa = fa + [dict(script=name_, opn=i_, op=b_['op'], tag='H', impl='entity %s component %d holds %d, the bytes of the default value' % (bad_[0], bad_[1], 2000 + bad_[2]),
+                                model='a type with a create function (a C++ type with a constructor) is initialised by it: %d' % (1000 + bad_[2]))]
+                break
     violations = []
     # what a C++ PerEntityJob hands its callback (each selected entity once, its own values, null for an optional component the entity
     # lacks), judged on the C interface's job runs
